@@ -182,6 +182,9 @@ func (p *provider) CreateScope(ctx context.Context) (Scope, error) {
 	// Auto-close on context cancellation
 	go func() {
 		<-ctx.Done()
+		if s.cascaded.Load() {
+			return
+		}
 		if err := s.Close(); err != nil {
 			// Context cancellation cleanup errors are expected during shutdown
 			// and cannot be meaningfully handled, so we ignore them
@@ -209,6 +212,14 @@ func (p *provider) Close() error {
 	p.scopes = nil
 	p.scopesMu.Unlock()
 	verifYield("provider.Close:scopes-detached")
+
+	// Closing one scope may cancel the context of another (a context derived from that
+	// scope's): its watcher would close it concurrently and drop the disposal errors
+	for _, s := range scopes {
+		if s != nil {
+			s.cascaded.Store(true)
+		}
+	}
 
 	for _, s := range scopes {
 		if s != nil {
